@@ -498,7 +498,7 @@ func (e *Enc) appendBuiltin(c *ssa.CallCommon, pos token.Pos) Term {
 	off := fmt.Sprintf("(ite %s (s-off %s) #x0000000000000000)", fits, s.S)
 	baseN := e.define(e.fresh("apbase"), "Int", base)
 	offN := e.define(e.fresh("apoff"), bv64, off)
-	oldInner := sel(mt, "(s-arr "+s.S+")")
+	oldInner := innerOf(e.cur, m, mt, "(s-arr "+s.S+")")
 	// constraints on resArr, stated over absolute positions (q ranges over array positions) so
 	// that every read of the result array triggers them
 	q := e.fresh("qa")
@@ -506,11 +506,12 @@ func (e *Enc) appendBuiltin(c *ssa.CallCommon, pos token.Pos) Term {
 	sOff, sLen := "(s-off "+s.S+")", "(s-len "+s.S+")"
 	var appended string // value at absolute position q inside the appended window
 	if !isStr {
-		srcInner := sel(mt, tarr)
+		srcInner := innerOf(e.cur, m, mt, tarr)
 		appended = sel(srcInner, "(bvadd "+toff+" (bvsub (bvsub "+q+" "+offN+") "+sLen+"))")
 	}
-	inPrefix := and("(bvsle "+offN+" "+q+")", "(bvslt "+q+" (bvadd "+offN+" "+sLen+"))")
-	inWindow := and("(bvsle (bvadd "+offN+" "+sLen+") "+q+")", "(bvslt "+q+" (bvadd "+offN+" "+newLen+"))")
+	rel := "(bvsub " + q + " " + offN + ")" // position relative to the start of the result slice
+	inPrefix := and("(bvsle "+zero+" "+rel+")", "(bvslt "+rel+" "+sLen+")")
+	inWindow := and("(bvsle "+sLen+" "+rel+")", "(bvslt "+rel+" "+newLen+")")
 	// prefix: element k of s
 	e.assume(fmt.Sprintf("(forall ((%s %s)) (! (=> %s (= (select %s %s) (select %s (bvadd %s (bvsub %s %s))))) :pattern ((select %s %s))))",
 		q, bv64, inPrefix, resArr, q, oldInner, sOff, q, offN, resArr, q))
@@ -533,6 +534,7 @@ func (e *Enc) appendBuiltin(c *ssa.CallCommon, pos token.Pos) Term {
 	e.bumpH(&Addr{base: baseN, isElem: true, allElem: true, elem: st.Elem()})
 	capN := fmt.Sprintf("(ite %s (s-cap %s) %s)", fits, s.S, newCap)
 	res := e.define(e.fresh("append"), "Slice", fmt.Sprintf("(mk-slice %s %s %s %s)", baseN, offN, newLen, capN))
+	e.cur.noteInner(m.Name, "(s-arr "+res+")", resArr) // reads through the result slice see resArr directly
 	// ghost allocation: amortised 2x the appended bytes when growing
 	// ghost allocation: amortised accounting -- every appended element is charged a constant factor
 	// (8x covers Go's growth policy down to its 1.25 factor), independently of whether this call grows
@@ -607,7 +609,7 @@ func (e *Enc) intrinsic(key string, callee *ssa.Function, c *ssa.CallCommon, pos
 		s := e.term(c.Args[1])
 		e.safety("index", "(bvsle "+bvLit(64, uint64(n))+" (s-len "+s.S+"))", fmt.Sprintf("binary.BigEndian.Uint%d needs %d bytes", n*8, n), pos)
 		m := w.reg.elemMem(types.Typ[types.Byte])
-		inner := sel(stateMem(e.cur, e.useMem, m), "(s-arr "+s.S+")")
+		inner := innerOf(e.cur, m, stateMem(e.cur, e.useMem, m), "(s-arr "+s.S+")")
 		var parts []string
 		for i := 0; i < n; i++ {
 			parts = append(parts, sel(inner, eidx("(s-off "+s.S+")", bvLit(64, uint64(i)))))
@@ -695,7 +697,7 @@ func (e *Enc) errorf(c *ssa.CallCommon, pos token.Pos) Term {
 	if len(wIdx) > 0 {
 		va := e.term(c.Args[1]) // the varargs slice
 		m := w.reg.elemMem(types.NewInterfaceType(nil, nil))
-		inner := sel(stateMem(e.cur, e.useMem, m), "(s-arr "+va.S+")")
+		inner := innerOf(e.cur, m, stateMem(e.cur, e.useMem, m), "(s-arr "+va.S+")")
 		for _, k := range wIdx {
 			arg := sel(inner, eidx("(s-off "+va.S+")", bvLit(64, uint64(k))))
 			class = "(bvor " + class + " (errclass (i-ref " + arg + ")))"
